@@ -440,6 +440,9 @@ func (c *Ctx) trCall(x *ast.CallExpr) Val {
 		c.fail(x, "len of %s", v.T)
 	case "cap":
 		v := c.tr(args[0])
+		if _, ok := v.T.Underlying().(*types.Chan); ok {
+			return ival(app("chancap", v.C[0]))
+		}
 		return ival(v.C[3])
 	case "string", "Pattern", "int", "byte", "rune", "Ref", "SoftRef":
 		v := c.tr(args[0])
